@@ -40,6 +40,7 @@ class FuncAnalysis:
         self.cfg = CFG(f.node)
         self.rd = ReachingDefs(f, self.cfg)
         self._sym = Sym(f, self.cfg, self.rd, inliner=an.inliner)
+        self._sym.tuple_inliner = an.tuple_elements
         self._effects: Optional[List[Effect]] = None
         self.touched = False      # a rule looked at this function's values / sites (not only at its effect summary)
 
@@ -74,6 +75,8 @@ class FuncAnalysis:
                 out.append(node)
             elif e is not None and exts and any(e == x or e.endswith("." + x) for x in exts):
                 out.append(node)
+            elif kind == "call" and len(tg) == 1 and id(node) not in self.an.res.byname and self.an.is_new_function(tg[0]) and self.an.helper_calls(tg[0], shorts, exts):
+                out.append(node)          # a new helper that (transitively) makes the call: the call site of the helper stands for it
         out.sort(key=lambda n: (n.lineno, n.col_offset))
         return out
 
@@ -90,9 +93,30 @@ class FuncAnalysis:
         return out
 
     def effects(self) -> List[Effect]:
+        """Direct effects, plus - at the call site - the effects of helpers that are new to the reviewed inventory (so that
+        moving a block into a new helper leaves the caller's effect summary, and every ordering rule reading it, unchanged)."""
         if self._effects is None:
             self._effects = self.an._direct_effects(self)
+            seen = set()
+            for node, g in self.new_helper_calls():
+                for e in self.an.helper_effects(g):
+                    k = (e.kind, e.owner, e.attr, id(node))
+                    if k in seen:
+                        continue
+                    seen.add(k)
+                    lifted = Effect(e.kind, e.owner, e.attr, node, self.f, e.sub)
+                    self._effects.append(lifted)
         return self._effects
+
+    def new_helper_calls(self) -> List[Tuple[ast.AST, FuncInfo]]:
+        """(call node, callee) for calls of this function that resolve to exactly one in-package function new to the inventory."""
+        out = []
+        for node, tg, e, kind in self.calls():
+            if kind != "call" or id(node) in self.an.res.byname or len(tg) != 1:
+                continue
+            if self.an.is_new_function(tg[0]) and tg[0].qual != self.f.qual:
+                out.append((node, tg[0]))
+        return out
 
     def writes(self, attr: str, owner: Optional[str] = None, kinds: str = "WMD") -> List[Effect]:
         return [e for e in self.effects() if e.attr == attr and e.kind in kinds and (owner is None or e.owner in (owner, "?") or self.an.owner_matches(e.owner, owner))]
@@ -245,6 +269,8 @@ class Analysis:
         self.res = Resolver(self.prog)
         self._fa: Dict[str, FuncAnalysis] = {}
         self.roots: Set[str] = set()
+        self._known = None
+        self._helper_stack: List[str] = []
         self._trans: Optional[Dict[str, Set[str]]] = None
         self._callees: Optional[Dict[str, Set[str]]] = None
         self.stats = {"functions_analysed": 0}
@@ -301,16 +327,16 @@ class Analysis:
                 return None
             rv = _straight_line_return(tg)
             if rv is None:
-                return None
+                return self._helper_value(sym, tg, {tg.params[0]: base_key}, depth) if self.is_new_function(tg) else None
             return self._inline(sym, tg, {tg.params[0]: base_key}, rv, depth)
         if isinstance(e, ast.Call) and isinstance(e.func, ast.Attribute):
             tg = self._inline_target(e.func.value, e.func.attr, f, want_property=False)
             if tg is None or tg.is_static or tg.is_classmethod:
                 return None
             rv = _straight_line_return(tg)
-            if rv is None:
+            if rv is None and not self.is_new_function(tg):
                 return None
-            if e.keywords or any(isinstance(a, ast.Starred) for a in e.args):
+            if any(isinstance(a, ast.Starred) for a in e.args) or any(k.arg is None for k in e.keywords):
                 return None
             params = tg.params
             if len(e.args) > len(params) - 1:
@@ -318,13 +344,182 @@ class Analysis:
             binding = {params[0]: sym.canon(e.func.value, at, depth + 1)}
             for p, a in zip(params[1:], e.args):
                 binding[p] = sym.ev(a, at, depth + 1)
-            for p in params[1 + len(e.args):]:
+            for k in e.keywords:
+                if k.arg not in params or k.arg in binding:
+                    return None
+                binding[k.arg] = sym.ev(k.value, at, depth + 1)
+            for p in params[1:]:
+                if p in binding:
+                    continue
                 d = tg.param_default(p)
                 if d is None:
                     return None
                 binding[p] = sym.ev(d, None, depth + 1)
+            if rv is None:
+                return self._helper_value(sym, tg, binding, depth)
             return self._inline(sym, tg, binding, rv, depth)
+        if isinstance(e, ast.Call) and isinstance(e.func, ast.Name):
+            # a new module-level helper function
+            r = self.prog.resolve_name_expr(f.module, e.func)
+            if isinstance(r, FuncInfo) and r.cls is None and self.is_new_function(r) and not any(isinstance(a, ast.Starred) for a in e.args) and not any(k.arg is None for k in e.keywords):
+                params = r.params
+                if len(e.args) > len(params):
+                    return None
+                binding = {}
+                for p, a in zip(params, e.args):
+                    binding[p] = sym.ev(a, at, depth + 1)
+                for k in e.keywords:
+                    if k.arg not in params or k.arg in binding:
+                        return None
+                    binding[k.arg] = sym.ev(k.value, at, depth + 1)
+                for p in params:
+                    if p not in binding:
+                        d = r.param_default(p)
+                        if d is None:
+                            return None
+                        binding[p] = sym.ev(d, None, depth + 1)
+                rv = _straight_line_return(r)
+                if rv is not None:
+                    return self._inline(sym, r, binding, rv, depth)
+                return self._helper_value(sym, r, binding, depth)
         return None
+
+    # ----------------------------------------------------- helpers new to the reviewed inventory
+    def helper_effects(self, g: FuncInfo, _stack=()) -> List[Effect]:
+        """Effects of a new helper, including those of the new helpers it calls in turn."""
+        if g.qual in _stack or len(_stack) > 4:
+            return []
+        fa = self.fa(g)
+        out = list(self._direct_effects(fa))
+        for node, h in fa.new_helper_calls():
+            out.extend(self.helper_effects(h, _stack + (g.qual,)))
+        return out
+
+    def helper_calls(self, g: FuncInfo, shorts, exts=(), _stack=()) -> bool:
+        if g.qual in _stack or len(_stack) > 4:
+            return False
+        for node, tg, e, kind in self.res.calls_in(g):
+            if any(t.short in shorts for t in tg):
+                return True
+            if e is not None and exts and any(e == x or e.endswith("." + x) for x in exts):
+                return True
+            if kind == "call" and len(tg) == 1 and id(node) not in self.res.byname and self.is_new_function(tg[0]) and self.helper_calls(tg[0], shorts, exts, _stack + (g.qual,)):
+                return True
+        return False
+
+    def attributed(self, f: FuncInfo, _stack=()) -> List[FuncInfo]:
+        """The reviewed functions an access made by f is attributed to for who-may-write / who-may-call rules: f itself when it
+        belongs to the inventory; for a new helper, the inventory functions that reach it through direct calls (a helper nobody
+        calls directly stands for itself)."""
+        if not self.is_new_function(f) or f.qual in _stack or len(_stack) > 4:
+            return [f]
+        out = []
+        for q in sorted(self.prog.expanded_into.get(f.qual, ())):      # call sites that were expanded in place (sa/normalise.py)
+            h = self.prog.functions.get(q)
+            if h is not None:
+                out.extend(self.attributed(h, _stack + (f.qual,)))
+        for h in self.prog.functions.values():
+            if h.qual == f.qual:
+                continue
+            for node, tg, e, kind in self.res.calls_in(h):
+                if kind == "call" and len(tg) == 1 and tg[0].qual == f.qual and id(node) not in self.res.byname:
+                    out.extend(self.attributed(h, _stack + (f.qual,)))
+                    break
+        seen, res = set(), []
+        for x in out:
+            if x.qual not in seen:
+                seen.add(x.qual)
+                res.append(x)
+        return res or [f]
+
+    def is_new_function(self, g: FuncInfo) -> bool:
+        """A function that is not in the inventory of the reviewed package (sa/known_functions.json): a helper introduced by
+        an edit. Such helpers are evaluated in place (their value / effects seen through), so that extracting or inlining a
+        helper does not change what the rules read; functions of the inventory keep their reviewed treatment."""
+        if self._known is None:
+            import json
+            with open(os.path.join(os.path.dirname(os.path.abspath(__file__)), "known_functions.json")) as fh:
+                self._known = set(json.load(fh))
+        return g.qual not in self._known and not g.module.name.startswith("_fixture")
+
+    def tuple_elements(self, sym: Sym, call: ast.Call, n: int, at, depth: int) -> Optional[List[Poly]]:
+        """`a, b = helper(...)` for a side-effect-free helper new to the inventory whose body is straight-line and ends in
+        `return (x, y)`: the element values, each evaluated in place."""
+        f = sym.f
+        tg = None
+        binding = None
+        if isinstance(call.func, ast.Attribute):
+            tg = self._inline_target(call.func.value, call.func.attr, f, want_property=False)
+            if tg is not None and not tg.is_static and not tg.is_classmethod:
+                binding = {tg.params[0]: sym.canon(call.func.value, at, depth + 1)}
+                params = tg.params[1:]
+        elif isinstance(call.func, ast.Name):
+            r = self.prog.resolve_name_expr(f.module, call.func)
+            if isinstance(r, FuncInfo) and r.cls is None:
+                tg, binding, params = r, {}, r.params
+        if tg is None or binding is None or not self.is_new_function(tg) or any(e.kind in "WMD" for e in self.fa(tg).effects()):
+            return None
+        rv = _straight_line_return(tg)
+        if not isinstance(rv, ast.Tuple) or len(rv.elts) != n or any(isinstance(x, ast.Starred) for x in rv.elts):
+            return None
+        if any(isinstance(a, ast.Starred) for a in call.args) or any(k.arg is None for k in call.keywords) or len(call.args) > len(params):
+            return None
+        for p, a in zip(params, call.args):
+            binding[p] = sym.ev(a, at, depth + 1)
+        for k in call.keywords:
+            if k.arg not in params or k.arg in binding:
+                return None
+            binding[k.arg] = sym.ev(k.value, at, depth + 1)
+        for p in params:
+            if p not in binding:
+                d = tg.param_default(p)
+                if d is None:
+                    return None
+                binding[p] = sym.ev(d, None, depth + 1)
+        return [self._inline(sym, tg, binding, x, depth) for x in rv.elts]
+
+    def _helper_value(self, sym: Sym, tg: FuncInfo, binding: dict, depth: int) -> Optional[Poly]:
+        """Value returned by a new, side-effect-free helper with control flow: its returns, folded into nested conditional
+        expressions over their path conditions (so `def side(q): if q >= 0: return bid` / `return ask` is `bid if q >= 0 else ask`)."""
+        if depth > sym.max_depth - 10 or tg.qual in self._helper_stack or len(self._helper_stack) > 3:
+            return None
+        if any(isinstance(n, (ast.Yield, ast.YieldFrom, ast.Await, ast.Try, ast.While, ast.With)) for n in ast.walk(tg.node)):
+            return None
+        if any(e.kind in "WMD" for e in self.fa(tg).effects()):
+            return None
+        from .forward import Forward
+        from .dataflow import ite_atom, cmp_negate, cmp_key
+        self._helper_stack.append(tg.qual)
+        try:
+            fw = Forward(self, self.fa(tg), call_effects=False)
+            for k, v in binding.items():
+                fw.st.locals[k] = v if isinstance(v, Poly) else Poly.atom(v)
+            fw.st.slots.update(sym.state)
+            fw.sym.decide = sym.decide
+            fw.run()
+            cases = [(v, list(st.conds)) for r, v, st in fw.returns if v is not None]
+            if fw.st.alive or not cases or len(cases) != len(fw.returns):
+                return None          # may fall through / return None: not a plain value
+            val = cases[-1][0]
+            seen_neg = set()
+            for v, conds in reversed(cases[:-1]):
+                pass
+            # fold from the last return backwards; the decisive conditions of return i are its path conditions minus the negations of earlier decisive ones
+            decisive = []
+            earlier = set()
+            for v, conds in cases:
+                d = [c for c in conds if cmp_key(c) not in earlier]
+                decisive.append(d)
+                for c in d:
+                    earlier.add(cmp_key(cmp_negate(c)))
+            for (v, conds), d in zip(reversed(cases[:-1]), reversed(decisive[:-1])):
+                if not d:
+                    return None
+                c = d[0] if len(d) == 1 else ("and", sorted(d, key=cmp_key))
+                val = ite_atom(c, v, val)
+            return val
+        finally:
+            self._helper_stack.pop()
 
     def _inline_target(self, recv: ast.AST, name: str, f: FuncInfo, want_property: bool) -> Optional[FuncInfo]:
         """The single implementation every possible receiver runs: the static
@@ -350,6 +545,7 @@ class Analysis:
 
     def _inline(self, sym: Sym, tg: FuncInfo, binding: dict, expr: ast.AST, depth: int) -> Poly:
         sub = Sym(tg, self.fa(tg).cfg, self.fa(tg).rd, inliner=self.inliner, max_depth=sym.max_depth)
+        sub.tuple_inliner = self.tuple_elements
         for k, v in binding.items():
             if isinstance(v, Poly):
                 sub.eager[k] = v
